@@ -1,6 +1,7 @@
 import CE.Rules.Machine
 import CE.Rules.Table
 import CE.Cbe.RoundTrip
+import CE.Cbe.Prefix
 import CE.Props.C10
 /-
   C09 — truncated documents are rejected and partial results are prefixes.
@@ -18,6 +19,14 @@ import CE.Props.C10
     encoded integer (any width) makes the CBE token decoder fail with end-of-file, delivering
     no event (`_partial`: the other token kinds are exercised by the CBE.DEC correspondence
     at random cuts and by the oracle at every cut).
+  * `cbe_truncation_delivers_a_prefix` — every cut of every byte string, inside a token or
+    between tokens, every event kind the decoder model covers: the events the CBE decoder has
+    delivered when the input ends after k bytes (not counting the end-of-document it adds when
+    it stops between tokens) are a prefix of the events it delivers for the whole input.  The
+    decoder reads a prefix code: a token that decodes keeps decoding to the same events when bytes
+    are appended, an error other than "input ended" reappears unchanged, and at "input ended" what
+    had been delivered (an array's begin and chunk events, say) is delivered again first
+    (CE/Cbe/Prefix.lean: `ext_decodeOne` for all 30 token kinds, `ext_decodeChunks` by induction).
   The value-level prefix order is decided by the oracle of `bin/check C09` on the
   implementation (the builders are not modelled).
 -/
@@ -269,5 +278,16 @@ theorem negInt_cut_rejected_partial (n : Nat) (h : n < 2 ^ 64) (k : Nat)
 
 /-- non-vacuity: a 3-byte and a 9-byte encoding have cuts -/
 example : (encPosInt 65535).length = 3 ∧ (encNegInt (2 ^ 63)).length = 9 := by decide
+
+/-- whatever the CBE decoder has delivered when a document is cut after k bytes is a prefix of what it
+    delivers for the whole document: for every byte string and every k -/
+theorem cbe_truncation_delivers_a_prefix (doc : Bytes) (k : Nat) :
+    CE.Cbe.delivered (CE.Cbe.decode (doc.take k)) <+: (CE.Cbe.decode doc).1 :=
+  CE.Cbe.truncation_delivers_a_prefix doc k
+
+/-- non-vacuity: a list holding a 3-byte string cut inside the string data has delivered the document
+    head, the list and the string's begin and chunk events -/
+example : CE.Cbe.delivered (CE.Cbe.decode (([0x81, 0, 0x9a, 0x90, 0x06, 0x61, 0x62, 0x63, 0x9b] : Bytes).take 7))
+    = [.beginDoc, .version 0, .list, .arrayBegin .string, .arrayChunk 3 false] := by decide +kernel
 
 end CE.Props.C09
